@@ -857,8 +857,8 @@ func c07CrossScenarios(prop string) func(tier string) []scenario {
 		for _, k := range ks {
 			prm := c07WParams{K: k, Prop: prop}
 			pw := explore.Config{P: 1, Horizon: 60e9}
-			if tier == "thorough" {
-				pw.P = 2
+			if tier == "thorough" && !k.Flate {
+				pw.P = 2 // (the compressed histories take 70 k executions at one preemption already)
 			}
 			scs = append(scs, scenario{Name: prm.name(), Cfg: pw, Setup: c07WSetup(prm)})
 			if k.Client {
@@ -877,10 +877,7 @@ func c07CrossScenarios(prop string) func(tier string) []scenario {
 // bystander: connection B receives a valid stream, so its read yields B's message.
 func c03PoolScenarios(tier string) []scenario {
 	var scs []scenario
-	p := 1
-	if tier == "thorough" {
-		p = 2
-	}
+	p := 1 // (both tiers: 18 k executions per scenario at one preemption)
 	for _, k := range []connCfg{{Client: false, Flate: true, CNCT: true, SNCT: true}, {Client: true, Flate: true, CNCT: true, SNCT: true}} {
 		for _, cl := range []string{"CloseNow", "ctx"} {
 			prm := c07ConcParams{K: k, Closer: cl, Prop: "C03", BLate: true}
@@ -995,6 +992,9 @@ func c07Scenarios(tier string) []scenario {
 			pk := pc
 			if k.Flate && !k.CNCT && pk.P > 1 {
 				pk.P = 1 // executions that inflate with context takeover are ~10x slower
+			}
+			if cl == "stalledEcho+CloseNow" {
+				pk.P = 1 // (36 k executions per configuration at one preemption)
 			}
 			scs = append(scs, scenario{Name: prm.name(), Cfg: pk, Setup: c07ConcSetup(prm)})
 			if k.Flate && k.CNCT && (cl == "CloseNow" || cl == "ctx") {
